@@ -48,12 +48,20 @@ where
     }
 }
 
+// True if the lowercase mapping of `c` is anything other than `c` itself.
+// This is the case for uppercase letters, but also for title case letters
+// and other cased characters which `char::is_uppercase` does not cover.
+fn has_lowercase_mapping(c: char) -> bool {
+    let mut lower = c.to_lowercase();
+    lower.next() != Some(c) || lower.next().is_some()
+}
+
 pub fn case_mapping_rule<'a, T>(s: T) -> Result<Cow<'a, str>, Error>
 where
     T: Into<Cow<'a, str>>,
 {
     let s = s.into();
-    match s.find(char::is_uppercase) {
+    match s.find(has_lowercase_mapping) {
         None => Ok(s),
         Some(pos) => {
             let mut res = String::from(&s[..pos]);
